@@ -197,7 +197,7 @@ func (ex *Exec) builtin(st *State, instr ssa.CallInstruction, b *ssa.Builtin, c 
 			}
 			return []string{ex.fromMathInt(fmt.Sprintf("(s.cap %s)", av))}
 		case *types.Basic:
-			return []string{ex.fromMathInt(fmt.Sprintf("(str.len %s)", av))}
+			return []string{ex.fromMathInt(fmt.Sprintf("(st.len %s)", av))}
 		case *types.Map:
 			_, _, ln := ex.mapTerms(st, av, t)
 			r := ex.bind("len", "Int", fmt.Sprintf("(ite (= %s 0) 0 %s)", av, ln))
@@ -277,10 +277,10 @@ func (ex *Exec) appendOp(st *State, c *ssa.CallCommon) string {
 	old := g.get(st, comp)
 	if _, isStr := c.Args[1].Type().Underlying().(*types.Basic); isStr {
 		g.needByteAt()
-		n = fmt.Sprintf("(str.len %s)", e)
-		srcRead = fmt.Sprintf("(str.at %s j)", e)
+		n = fmt.Sprintf("(st.len %s)", e)
+		srcRead = fmt.Sprintf("(st.at %s j)", e)
 		if g.mode == "bv" {
-			srcRead = fmt.Sprintf("((_ int2bv 8) (str.at %s j))", e)
+			srcRead = fmt.Sprintf("((_ int2bv 8) (st.at %s j))", e)
 		}
 	} else {
 		n = fmt.Sprintf("(s.len %s)", e)
@@ -318,10 +318,10 @@ func (ex *Exec) copyOp(st *State, c *ssa.CallCommon) string {
 	var sl, srcRead string
 	if _, isStr := c.Args[1].Type().Underlying().(*types.Basic); isStr {
 		g.needByteAt()
-		sl = fmt.Sprintf("(str.len %s)", s)
-		srcRead = fmt.Sprintf("(str.at %s j)", s)
+		sl = fmt.Sprintf("(st.len %s)", s)
+		srcRead = fmt.Sprintf("(st.at %s j)", s)
 		if g.mode == "bv" {
-			srcRead = fmt.Sprintf("((_ int2bv 8) (str.at %s j))", s)
+			srcRead = fmt.Sprintf("((_ int2bv 8) (st.at %s j))", s)
 		}
 	} else {
 		sl = fmt.Sprintf("(s.len %s)", s)
